@@ -14,7 +14,7 @@ from bctmc.tally import Tally
 
 PROPERTY = 'C04'
 RULE = ('for each deterministic measure: all labelled inputs of its class on 4 nodes (binary digraphs 4096, binary graphs 64, '
-        'weights {1,2} 729, signed {-1,0,1} 729; weights {.4,.3,.1+.2} (two values one rounding error apart; thorough also decimal {.1,.2,.3,.4}) on 4-node graphs / 3-node digraphs for the path-based weighted measures; with every set partition where a community vector is an argument) x all 24 '
+        'weights {1,2} 729, signed {-1,0,1} 729; weights {.4,.3,.1+.2} (two values one rounding error apart; thorough also decimal {.1,.2,.3,.4}) on 4-node graphs / 3-node digraphs for the path-based weighted measures; lengths {1,2} on all 59 049 5-node graphs x the 4 adjacent transpositions (which generate every renumbering; the family is closed under renumbering) for betweenness_wei and edge_betweenness_wei (thorough: also distance_wei, local efficiency_wei); with every set partition where a community vector is an argument) x all 24 '
         'renumberings (thorough: binary graphs on 5 nodes x 120 renumberings); non-trivial = (graph, renumbering) pairs where '
         'the renumbered graph differs from the graph')
 ASSUMPTIONS = ['outputs documented as order-dependent choices are excluded: Pmat/hops of distance_wei_floyd and B of '
@@ -113,10 +113,12 @@ FAMS = {
     'dirci': (True, 4, (0, 1)),
     'unddec4': (False, 4, (0, 0.1, 0.2, 0.3, 0.4)), 'dirdec3': (True, 3, (0, 0.1, 0.2, 0.3, 0.4)),
     'undulp4': (False, 4, (0, 0.4, 0.3, 0.1 + 0.2)),     # two weights one rounding error apart
+    'und12_5': (False, 5, (0, 1, 2)),
 }
 
 
 THOROUGH = [False]
+PATH_WEIGHTED = ('betweenness_wei', 'edge_betweenness_wei', 'distance_wei[D]', 'efficiency_wei[local]')
 
 
 def plan(ctx):
@@ -130,12 +132,17 @@ def plan(ctx):
         units.append(('plain', 'und12', 'UND', name))
         if ctx.thorough:
             units.append(('plain', 'und5', 'UND', name))
-    for name in ('distance_wei[D]', 'betweenness_wei', 'edge_betweenness_wei', 'efficiency_wei[local]'):
+    for name in PATH_WEIGHTED:
         units.append(('plain', 'undulp4', 'UND', name))     # rounding-level near-ties
         if THOROUGH[0]:
             units.append(('plain', 'unddec4', 'UND', name))
             if name in DIR:
                 units.append(('plain', 'dirdec3', 'DIR', name))
+    # 5 nodes, lengths {1,2} (59 049 graphs): the family is closed under renumbering, so equivariance under the four
+    # adjacent transpositions for every graph implies it for all 120 renumberings
+    for name in PATH_WEIGHTED if ctx.thorough else PATH_WEIGHTED[:2]:
+        for (a, b) in ss.ranges(ss.und_count(5, (0, 1, 2)), 32):
+            units.append(('gen', 'und12_5', 'UND', name, a, b))
     for name in SIGNED:
         units.append(('plain', 'sign', 'SIGNED', name))
     for name in WITH_CI:
@@ -144,7 +151,9 @@ def plan(ctx):
 
 
 def unit_cost(unit):
-    mode, fam, table, name = unit
+    mode, fam, table, name = unit[:4]
+    if mode == 'gen':
+        return 60
     return (100 if mode == 'ci' else 0) + {'dir4': 50, 'und5': 40, 'sign': 30, 'und12': 30}.get(fam, 0) + \
         (20 if 'betweenness' in name or 'gateway' in name or 'efficiency' in name else 0)
 
@@ -190,7 +199,42 @@ def compare(t, fname, kinds, base, other, p, case):
             return
 
 
+def work_generators(unit):
+    mode, fam, table, name, a, b = unit
+    t = Tally(PROPERTY)
+    directed, n, alpha = FAMS[fam]
+    f, kinds = {'DIR': DIR, 'UND': UND}[table][name]
+    gens = []
+    for k in range(n - 1):
+        p = list(range(n))
+        p[k], p[k + 1] = p[k + 1], p[k]
+        gens.append(np.array(p))
+    if a == 0:
+        t.c['measures'] += 1
+    for idx in range(a, b):
+        A = ss.und_graph(n, alpha, idx)
+        base = None
+        for p in gens:
+            B = A[np.ix_(p, p)]
+            j = ss.und_index(B, alpha)
+            if j <= idx:        # j == idx: the transposition fixes the graph; j < idx: the same pair is compared from the other side
+                continue
+            if base is None:
+                base = evaluate(f, A)
+                t.c['evaluations'] += 1
+            other = evaluate(f, B)
+            t.c['evaluations'] += 1
+            t.c['pairs_compared'] += 1
+            t.c['nontrivial'] += 1
+            compare(t, name.split('[')[0], kinds, base, other, p, {'measure': name, 'family': fam, 'A': A, 'perm': p})
+    if a == 0:
+        t.sample({'measure': name, 'family': fam, 'graphs': ss.und_count(n, alpha), 'renumberings': 'adjacent transpositions (generate all)'})
+    return t
+
+
 def work(unit):
+    if unit[0] == 'gen':
+        return work_generators(unit)
     mode, fam, table, name = unit
     t = Tally(PROPERTY)
     n, alpha, graphs, idx_of = graphs_of(fam)
